@@ -401,6 +401,36 @@ impl DependencyGraph {
             dg.unblock_transfer_target(query, new_owner_thread);
             dg.update_transferred_edges(query, new_owner_thread);
 
+            #[cfg(feature = "verif-hooks")]
+            crate::verif::proto_detail(
+                "dg_edges",
+                Some(query),
+                Some(new_owner),
+                [
+                    crate::verif::tid(current_thread),
+                    crate::verif::tid(new_owner_thread),
+                    0,
+                    0,
+                ],
+                "",
+                || {
+                    let mut edges: Vec<String> = dg
+                        .edges
+                        .0
+                        .iter()
+                        .map(|(from, edge)| {
+                            format!(
+                                "{}>{}",
+                                crate::verif::tid(*from),
+                                crate::verif::tid(edge.blocked_on_id)
+                            )
+                        })
+                        .collect();
+                    edges.sort();
+                    edges.join(",")
+                },
+            );
+
             // Block on the new owner, unless new owner is blocked on this query.
             // This is necessary to avoid a race between `fetch` completing and `provisional_retry` blocking on the
             // first cycle head.
